@@ -134,3 +134,27 @@ theorem rejection_accept_iff (log_w u : Fin n → ℝ) (hu : ∀ i, 0 < u i) (i 
     rs_accept log_w (fun j => Real.log (u j)) i ↔ u i < Real.exp (log_w i) / Real.exp (vmax log_w) := by
   unfold rs_accept
   rw [← Real.exp_sub, gt_iff_lt, Real.log_lt_iff_lt_exp (hu i)]
+
+-- C02 the stored weights are exp(log_w) and the stored evidence is the mean weight
+theorem cw_weights_spec (ll lp lq : Fin n → ℝ) (i : Fin n) : cw_weights ll lp lq i = Real.exp (ll i + lp i - lq i) := by
+  unfold cw_weights; rfl
+
+theorem cw_evidence_spec (ll lp lq : Fin n → ℝ) :
+    cw_evidence ll lp lq = (∑ i, Real.exp (ll i + lp i - lq i)) / n := by
+  have h := cw_log_evidence_spec ll lp lq
+  unfold cw_log_evidence at h
+  unfold cw_evidence
+  rw [h]
+  have hn : (0:ℝ) < n := by exact_mod_cast Nat.pos_of_ne_zero (NeZero.ne n)
+  exact Real.exp_log (div_pos (sum_exp_pos _) hn)
+
+-- C02 the (absolute) evidence error is the standard error of the mean weight: sqrt( sum (w_i - Z)^2 / (n (n-1)) )
+theorem cw_evidence_error_spec (ll lp lq : Fin n → ℝ) :
+    cw_evidence_error ll lp lq =
+      Real.sqrt ((∑ i, (Real.exp (ll i + lp i - lq i) - (∑ j, Real.exp (ll j + lp j - lq j)) / n) ^ 2) / ((n:ℝ) * ((n:ℝ) - 1))) := by
+  have hz := cw_evidence_spec ll lp lq
+  unfold cw_evidence at hz
+  unfold cw_evidence_error
+  rw [hz]
+  congr 2
+  ring
